@@ -192,7 +192,7 @@ def _gen_idle(rng, tier):
 
 def nowake_case(first_kind):
     """Long slices: a waiter that is not woken by the notify would sleep for seconds."""
-    lines = [[1, 1000, 1000 + 200000000, 6000000, 1, 1000, 60000000], [6, 1]]
+    lines = [[1, 1000, 1000 + 400000000, 20000000, 1, 1000, 120000000], [6, 1]]
     if first_kind == 1:
         lines += [[4, 13, 1, 1, 0, 0], [4, 13, 2, 2, 0, 0]]
     else:
@@ -673,8 +673,14 @@ PROP_KINDS = {"C17": {
 def shrink(case):
     heads = [l for l in case if l[0] in (1, 6)]
     rest = [l for l in case if l[0] not in (1, 6)]
+    # with long wait slices (seconds of real time) every wait must keep the arrival that ends it
+    long_slice = any(l[0] == 1 and len(l) > 3 and l[3] >= 1000000 for l in case)
     for i in range(len(rest)):
+        if long_slice and rest[i][0] == 4:
+            continue
         yield heads + rest[:i] + rest[i + 1:]
+    if long_slice:
+        return
     for idx, l in enumerate(case):
         if l[0] == 2 and len(l) > 2:
             yield case[:idx] + [l[:-1]] + case[idx + 1:]
